@@ -157,6 +157,9 @@ func descCall(cc *ssa.CallCommon, d int) string {
 	case *ssa.Function:
 		name = ssaFuncKey(f)
 	case *ssa.Builtin:
+		if (f.Name() == "len" || f.Name() == "cap") && len(cc.Args) == 1 {
+			return f.Name() + "(" + descD(cc.Args[0], d+1) + ")"
+		}
 		name = f.Name()
 	case *ssa.MakeClosure:
 		name = "closure:" + ssaFuncKey(f.Fn.(*ssa.Function))
